@@ -51,8 +51,33 @@ Theorem C09_gen_term_cmd_get (s : option ds) (k : option dc) (other : option (op
   run_fn c (g_term_cmd_get c) (m_term s k other) []
   = Some (Ok (m_term s k other, m_oget VC (cget k (match other with Some p => snd p | None => None end)))).
 Proof. destruct k as [[tk xk]|]; destruct other as [[ps [[tp xp]|]]|]; mr_exec. Qed.
+
+(* Getter<TerminalData>: both reads combined, stamped with the state's time when there is a state, else the command's *)
+Definition dget (st : option ds) (cm : option dc) : option (datum (@tdata F)) :=
+  let time := match st with Some d => Some (d_time d) | None => match cm with Some d => Some (d_time d) | None => None end end in
+  match time with
+  | Some t => Some (mkDatum t {| td_time := t; td_cmd := option_map (@d_val _) cm; td_state := option_map (@d_val _) st |})
+  | None => None
+  end.
+Lemma data_get_local (w : @world F) i : data_get w i = dget (state_get w i) (cmd_get w i).
+Proof. reflexivity. Qed.
+Definition m_tdata (d : datum (@tdata F)) : @mval F :=
+  MRec [("time", m_t (d_time d));
+        ("value", MRec [("command", m_opt (fun k => MV (VC k)) (td_cmd (d_val d)));
+                        ("state", m_opt (fun x => MV (VS x)) (td_state (d_val d)));
+                        ("time", m_t (td_time (d_val d)))])].
+Theorem C09_gen_term_data_get (s : option ds) (k : option dc) (other : option (option ds * option dc)) :
+  run_fn c (g_term_data_get c) (m_term s k other) []
+  = Some (Ok (m_term s k other,
+              MOk (m_opt m_tdata (dget (sget s (match other with Some p => fst p | None => None end))
+                                       (cget k (match other with Some p => snd p | None => None end)))))).
+Proof.
+  destruct s as [[ts xs]|]; destruct k as [[tk xk]|]; destruct other as [[[[tp xp]|] [[tq xq]|]]|]; mr_exec.
+Qed.
 End C09Streams.
 Print Assumptions state_get_local.
 Print Assumptions cmd_get_local.
 Print Assumptions C09_gen_term_state_get.
 Print Assumptions C09_gen_term_cmd_get.
+Print Assumptions data_get_local.
+Print Assumptions C09_gen_term_data_get.
